@@ -149,17 +149,20 @@ func main() {
 					f.Original = withHist
 				}
 			}
+			// a run that left task goroutines behind (deadlock verdict) has poisoned
+			// this process: everything from here on is judged in child processes
+			poisoned := r.Poisoned
 			min := f.Original
 			if !*noShrink {
 				var n int
-				min, n = run.Shrink(f.Original, f.Viol.Class, opt, 6000, *shrinkTime, fresh)
+				min, n = run.Shrink(f.Original, f.Viol.Class, opt, 6000, *shrinkTime, fresh, poisoned)
 				f.ShrinkExecs = n
 			}
 			// confirm the minimised scenario once more, with a trace
 			o2 := opt
 			o2.Trace = true
 			var r2 *run.Result
-			if len(f.Original.Before) > 0 {
+			if len(f.Original.Before) > 0 || poisoned || run.ProcessPoisoned() {
 				r2 = childExec(min, *racelog, true)
 			} else {
 				r2 = run.Execute(min, o2)
